@@ -425,7 +425,7 @@ def join(tokens, rnd=None, comments=False, crlf=False, final_comment=False, coll
         if comments and x < 0.12:
             cno[0] += 1
             txt = rnd.choice([" c%d" % cno[0], "c%d ;; é" % cno[0], " c%d \"quoted\" 'x'" % cno[0], "", "; doubled %d" % cno[0], ";; banner %d ;;;" % cno[0],
-                              " c%d trailing blanks  " % cno[0], "\tc%d after a tab" % cno[0]])
+                              " c%d trailing blanks  " % cno[0]])     # no TAB inside a comment: PCHAR = %x20-7E / %x80-10FFFD (listed leniency C03-tab-in-comment)
             if collect is not None:
                 collect.append(txt)
             return " ;" + txt + nl
